@@ -34,6 +34,8 @@ def run(ctx, report):
     report.section("purity", purity, ctx, report)
     from . import markup_writer_fold
     report.section("written documents", markup_writer_fold.run, ctx, report, {"italics": ("R-DOC-STYLE", "1")})
+    from . import webvtt_layout_fold
+    report.section("WebVTT captions split by layout", webvtt_layout_fold.run_cues, ctx, report, {"split": ("R-E2E", "2")})
     from . import dfxp_reader_fold
     report.section("generated DFXP documents", dfxp_reader_fold.run, ctx, report, {
         "italics": ("R-DOC-STYLE", "1"), "roundtrip": ("R-ROUNDTRIP", "1"), "to_sami": ("R-CHAIN", "1")})
